@@ -44,7 +44,7 @@ func c03Setup(mode int) *c03Env {
 	e.toolOut, e.prOut, e.resOut = -1, -1, -1
 	e.srv.RegisterTool(NewTool("t"), func(ctx context.Context, r *CallToolRequest) (*CallToolResult, error) {
 		// the outcome is chosen when (and only if) the handler runs
-		e.toolOut = vChoice("toolOutcome", 4)
+		e.toolOut = vChoice("toolOutcome", 6)
 		return verifToolHandler(e.toolLog, e.toolOut, "hello")(ctx, r)
 	})
 	e.srv.RegisterPrompt(&Prompt{Name: "p"}, func(ctx context.Context, r *GetPromptRequest) (*GetPromptResult, error) {
@@ -195,7 +195,7 @@ func c03CheckFrame(e *c03Env, frame interface{}, obj map[string]interface{}, met
 		default:
 			vAssert("handler-ran-once", e.toolLog.calls == 1)
 			switch e.toolOut {
-			case 0, 1:
+			case 0, 1, 4, 5:
 				vAssert("tool-result", hasResult)
 				if hasResult {
 					vAssert("tool-result-shape", verifResultShape(method, result))
@@ -268,7 +268,7 @@ func (w *verifWriter) Write(p []byte) (int, error) {
 func c03RegisterStdio(e *c03Env, srv *StdioServer) {
 	e.toolOut, e.prOut, e.resOut = -1, -1, -1
 	srv.RegisterTool(NewTool("t"), func(ctx context.Context, r *CallToolRequest) (*CallToolResult, error) {
-		e.toolOut = vChoice("toolOutcome", 4)
+		e.toolOut = vChoice("toolOutcome", 6)
 		return verifToolHandler(e.toolLog, e.toolOut, "hello")(ctx, r)
 	})
 	srv.RegisterPrompt(&Prompt{Name: "p"}, func(ctx context.Context, r *GetPromptRequest) (*GetPromptResult, error) {
@@ -387,7 +387,7 @@ func c03SSEExchange(body []byte) {
 	srv := NewSSEServer("srv", "1.0")
 	e.toolOut, e.prOut, e.resOut = -1, -1, -1
 	srv.RegisterTool(NewTool("t"), func(ctx context.Context, r *CallToolRequest) (*CallToolResult, error) {
-		e.toolOut = vChoice("toolOutcome", 4)
+		e.toolOut = vChoice("toolOutcome", 6)
 		return verifToolHandler(e.toolLog, e.toolOut, "hello")(ctx, r)
 	})
 	srv.RegisterPrompt(&Prompt{Name: "p"}, func(ctx context.Context, r *GetPromptRequest) (*GetPromptResult, error) {
